@@ -840,6 +840,7 @@ structure ExitDiscCfg where
   symPlain : ReportFn        -- ERRORvreport_with_symbol without
   failActs : List RAct       -- EXPRESS_fail before its hook/trailer
   failHooks : Nat            -- source files that install an EXPRESSfail hook
+  strayWrites : Nat          -- assignments to ERRORoccurred other than the ones in the branches above
   failStatus : Nat
   succActs : List RAct       -- EXPRESS_succeed before its hook/trailer
   succStatus : Nat
